@@ -272,6 +272,16 @@ class Roles:
             for c in self.callers_of(cw):
                 if self._g.get(self.fq(c), set()) & refill and self.fq(c) in self.global_reach:
                     cands.append(c)
+            if len(set(cands)) > 1:
+                # the seeding routine may compute its own characteristics and refill; the full recomputation is
+                # the other one
+                try:
+                    sdg = self.seeding
+                    rest = [c for c in cands if c is not sdg]
+                    if rest:
+                        cands = rest
+                except (RoleMissing, AnalysisError):
+                    pass
             return self._unique('full recomputation', cands,
                                 'calls the characteristic writer and RefillQueue')
         return self.memo('full_recalc', build)
